@@ -56,6 +56,11 @@ def run(R):
                      "certainty for an absent one - and the conclusion tag is the conjunction of the positive and the negative part")
     R.rule("C06-R7", "tag store semantics: an absent tag reads as one(); update_disjunction stores disjunction(old, new) and reports a change "
                      "exactly when the result is not saturated")
+    R.rule("C06-R8", "the exact model counter has no shortcut: every value shannon_wmc returns is a constant of a base case, the memoised value, or "
+                     "computed from the recursive counts of both cofactors. A return computed in any other way (a closed form for `independent` "
+                     "clauses, noisy-OR, an inclusion-exclusion cut-off) is only right when its side condition is right - and literals of the "
+                     "same seed with opposite polarity are not independent")
+    r8(R)
     # ---- R1 (positive round) and R3, shared with C12
     c12.r5_r6(Remap(R, {"C12-R5": "C06-R1", "C12-R6": "C06-R3"}))
     c12.r3(Remap(R, {"C12-R3": "C06-R3"}))
@@ -344,3 +349,42 @@ def _tag_store(R):
             cds = [cd for cd in G.conditions(ud, s.bb) if cd.get("kind") == "call" and cd["call"] is q]
             R.ob("C06-R7", "store-iff-changed", "the tag is stored exactly when the combination is not saturated", bool(cds) and cds[0].get("truth") is False,
                  where=ud.where(s.ln))
+
+
+
+def r8(R):
+    from lib import pipeline as P
+    prog = R.prog
+    b = R.body("C06-R8", "provenance::shannon_wmc", crate="shared")
+    if b is None:
+        return
+    R.saw(b)
+    rec = [c for c in b.calls() if c.key == b.key]
+    R.ob("C06-R8", "two-cofactors", "shannon_wmc expands on both cofactors (found %d recursive calls)" % len(rec), len(rec) >= 2, where=b.where())
+    nret = 0
+    for d in b.defs().get(0, []):
+        if d[0] not in ("assign", "call"):
+            continue
+        nret += 1
+        if d[0] == "call":
+            terms = {("call", d[2].name())}
+            for a in d[2].args:
+                pl = F.op_place(a)
+                if pl is not None:
+                    terms |= P.derives(prog, b, pl["l"])
+            ln = d[2].ln
+        else:
+            terms = set()
+            for q, k in F.rv_places(d[3]):
+                terms |= P.derives(prog, b, q["l"])
+            if not list(F.rv_places(d[3])):
+                terms.add(("const",))
+            ln = (d[4].get("ln") if len(d) > 4 and isinstance(d[4], dict) else None)
+        calls = {t[1] for t in terms if t[0] == "call"}
+        from_rec = b.name in calls
+        from_memo = any(t[0] == "param" and t[1] == "memo" for t in terms) and not (calls - {"get", "copied", "cloned", "deref"})
+        const_only = not calls and not any(t[0] in ("param", "field") for t in terms)
+        ok = from_rec or from_memo or const_only
+        R.ob("C06-R8", "return-by-expansion", "a value shannon_wmc returns is a base-case constant, the memoised value or built from the recursive counts", ok,
+             where=b.where(ln), detail=None if ok else "this return is computed through %s without the Shannon expansion" % sorted(calls)[:5])
+    R.floor("C06-R8", "assignments to shannon_wmc's result", nret, 3)
